@@ -490,7 +490,8 @@ pub fn check<P: Property>(p: &P, ctx: &Ctx, workers: u64, verif_dir: &Path, extr
     if let Some((idx, v, scn_json)) = &res.violation {
         let scn: P::Scn = serde_json::from_value(scn_json.clone()).expect("scenario from json");
         // confirm in this process
-        let confirmed = if v.kind == "abort" || v.kind == "hang" {
+        let worker_level = v.site == "worker-process"; // the SUT killed or stalled the worker itself
+        let confirmed = if worker_level {
             // cannot be re-executed in-process without dying: confirm in a child process
             confirm_in_child(p, ctx, &scn, verif_dir)
         } else {
@@ -498,7 +499,7 @@ pub fn check<P: Property>(p: &P, ctx: &Ctx, workers: u64, verif_dir: &Path, extr
         };
         match confirmed {
             Some(cv) if cv.same_class(v) => {
-                let (min_scn, min_v, steps) = if v.kind == "abort" || v.kind == "hang" {
+                let (min_scn, min_v, steps) = if worker_level {
                     (scn.clone(), cv.clone(), 0)
                 } else {
                     minimise(p, ctx, scn.clone(), &cv, 4000)
@@ -595,7 +596,7 @@ fn confirm_in_child<P: Property>(p: &P, ctx: &Ctx, scn: &P::Scn, _verif_dir: &Pa
             Ok(Some(st)) => {
                 break match st.code() {
                     Some(0) => None,
-                    Some(1) => Some(Violation::new("panic", "child", "violation reported by child replay")),
+                    Some(1) => Some(Violation::new("abort", "worker-process", "child replay reported a violation instead of dying")),
                     _ => Some(Violation::new("abort", "worker-process", format!("child replay ended with {:?}", st))),
                 };
             }
